@@ -11,7 +11,10 @@ import (
 	orbitdb "berty.tech/go-orbit-db"
 	"berty.tech/go-orbit-db/accesscontroller"
 	"berty.tech/go-orbit-db/iface"
+	"berty.tech/go-orbit-db/stores"
 	"berty.tech/go-orbit-db/stores/operation"
+	"github.com/libp2p/go-libp2p/core/event"
+	"github.com/libp2p/go-libp2p/p2p/host/eventbus"
 	"verifmc/explore"
 	"verifmc/sim"
 )
@@ -46,6 +49,7 @@ func pointDetail(name string, obj interface{}) string {
 // ConcWriters: N goroutines write concurrently to one event log store; the explorer steps each writer
 // through the points begin / afterAppend / afterPersist / afterIndex.
 type ConcWriters struct {
+	evSub event.Subscription // C16: write events of the store under test (WatchWriteEvents)
 	k0       int    // effects issued before the writers started
 	identity string
 	last    string // thread that made the last step
@@ -507,7 +511,71 @@ func viewVsReplay(s iface.Store) string {
 	return ""
 }
 
+// WatchWriteEvents subscribes to the instance's write events with a buffer larger than the number of writes,
+// so that no emission ever waits for the harness.
+func (w *ConcWriters) WatchWriteEvents() error {
+	sub, err := w.inst.Bus.Subscribe(new(stores.EventWrite), eventbus.BufSize(64))
+	if err != nil {
+		return err
+	}
+	w.evSub = sub
+	return nil
+}
+
+// WriteEventViolations: all writers have returned; every acknowledged local write was announced by exactly
+// one write event carrying the entry its call returned, and no write event carries anything else (C16).
+func (w *ConcWriters) WriteEventViolations() []explore.Violation {
+	if w.evSub == nil {
+		return nil
+	}
+	w.net.Gates.Enable(nil)
+	_ = sim.Quiesce()
+	got := map[string]int{}
+	for drained := false; !drained; {
+		select {
+		case evt := <-w.evSub.Out():
+			if e, ok := evt.(stores.EventWrite); ok && e.Address.String() == w.addr && e.Entry != nil {
+				got[e.Entry.GetHash().String()]++
+			}
+		default:
+			drained = true
+		}
+	}
+	w.mu.Lock()
+	local := map[string]string{}
+	for p, h := range w.acked {
+		if !strings.HasPrefix(p, "r.") && !strings.HasPrefix(p, "q.") {
+			local[h] = p
+		}
+	}
+	nerr := len(w.errs)
+	w.mu.Unlock()
+	var out []explore.Violation
+	hs := make([]string, 0, len(local))
+	for h := range local {
+		hs = append(hs, h)
+	}
+	sort.Strings(hs)
+	for _, h := range hs {
+		if got[h] != 1 {
+			out = append(out, explore.Violation{Signature: fmt.Sprintf("concurrent-write-announced-%d-times", got[h]),
+				Detail: fmt.Sprintf("the write of %q returned entry %s; %d write events carry it (events by entry: %v)", local[h], short4(h), got[h], got)})
+		}
+	}
+	if nerr == 0 {
+		for h, n := range got {
+			if _, ok := local[h]; !ok {
+				out = append(out, explore.Violation{Signature: "write-event-carries-entry-no-call-returned", Detail: fmt.Sprintf("%d write events carry %s", n, short4(h))})
+			}
+		}
+	}
+	return out
+}
+
 func (w *ConcWriters) Close() {
+	if w.evSub != nil {
+		_ = w.evSub.Close()
+	}
 	w.net.Gates.Enable(nil)
 	for i := 0; i < 50; i++ {
 		if w.net.Gates.ReleaseAll() == 0 {
